@@ -296,12 +296,57 @@ fn probe_type<T: Probe + assets_manager::Asset>(rep: &mut Report) {
 }
 
 /// `amv c13-types`
+/// The same ownership laws for a value kept in a `OnceInitCell<U, Heap>`: the loaded `U` (the seed) and the
+/// value built from it are each dropped exactly once, however the entry leaves the cache, initialised or not.
+fn probe_cell<U: Probe + assets_manager::Asset>(rep: &mut Report) {
+    use assets_manager::OnceInitCell;
+    let (cu, ch) = (U::ctr(), Heap::ctr());
+    let base = |c: &'static (AtomicI64, AtomicI64)| (c.0.load(AO::SeqCst), c.1.load(AO::SeqCst));
+    let (u0, h0) = (base(cu), base(ch));
+    let live_u = || (cu.0.load(AO::SeqCst) - u0.0) - (cu.1.load(AO::SeqCst) - u0.1);
+    let live_h = || (ch.0.load(AO::SeqCst) - h0.0) - (ch.1.load(AO::SeqCst) - h0.1);
+    let made_u = || cu.0.load(AO::SeqCst) - u0.0;
+    let dropped_u = || cu.1.load(AO::SeqCst) - u0.1;
+    let mut bad = |what: &str| rep.mismatch(json!({"what": what, "type": format!("OnceInitCell<{}, heap-owning>", U::NAME)}));
+    let src = MemSource::new(false);
+    for id in ["a", "b", "c", "d"] {
+        src.put(id, "x", b"v1");
+    }
+    {
+        let mut cache = AssetCache::with_source(src.clone());
+        // a: initialised then removed; b: initialised then cleared; c: never initialised; d: initialised, dropped with the cache
+        for id in ["a", "b", "d"] {
+            let h = cache.load::<OnceInitCell<U, Heap>>(id).unwrap();
+            let g = h.read();
+            let v = g.get_or_init(|_u: &mut U| Heap::make(5));
+            if !v.check(5) { bad("the initialised value is wrong"); }
+        }
+        let _ = cache.load::<OnceInitCell<U, Heap>>("c").unwrap();
+        // 4 seeds made; the 3 used ones are gone (dropped once each), 1 still alive; 3 values alive
+        if made_u() != 4 { bad("not one seed per load"); }
+        if dropped_u() != 3 || live_u() != 1 { bad("an initialised cell did not drop its seed exactly once"); }
+        if live_h() != 3 { bad("live values after three initialisations != 3"); }
+        if !cache.remove::<OnceInitCell<U, Heap>>("a") || live_h() != 2 { bad("remove did not drop exactly the stored value"); }
+        let taken = cache.take::<OnceInitCell<U, Heap>>("b");
+        if taken.is_none() || live_h() != 2 { bad("take dropped or duplicated the value"); }
+        drop(taken);
+        if live_h() != 1 { bad("the taken cell did not drop its value exactly once"); }
+    }
+    if live_h() != 0 || live_u() != 0 || dropped_u() != 4 {
+        bad("after the cache is gone not every seed and value was dropped exactly once");
+    }
+    rep.cases += 1;
+}
+
 pub fn c13_types(_args: &[String]) {
     let mut rep = Report::default();
     probe_type::<Zst>(&mut rep);
     probe_type::<OneByte>(&mut rep);
     probe_type::<Heap>(&mut rep);
     probe_type::<Align64>(&mut rep);
+    probe_cell::<Zst>(&mut rep);
+    probe_cell::<OneByte>(&mut rep);
+    probe_cell::<Align64>(&mut rep);
     // type erasure: (stored type, requested type) pairs
     let src = MemSource::new(false);
     src.put("a", "x", b"v1");
